@@ -222,11 +222,22 @@ def _graph_case(keys: List[str], nbrs: Dict[str, List[str]]) -> dict:
 def _exhaustive_graphs(ctx: Ctx, rng: Rng):
     """Bounded-exhaustive family for science.graph_has_cycle / topological_sort against the proved model, generated lazily as
     (family name, keys in dict order, neighbour lists):
-    * EVERY directed graph on n <= 4 nodes, self-loops included (2^(n*n) arc sets; n = 4: 65 536), keys in a random order,
-      each neighbour collection in a random order;
+    * the named shapes diamond / triangle / fan / chain in every key order and neighbour order;
+    * EVERY directed graph on n <= 4 nodes, self-loops included (2^(n*n) arc sets; n = 4: 65 536): the acyclic ones (543 on 4
+      nodes) in EVERY key order, the cyclic ones with keys in a random order; neighbour collections in a random order;
     * EVERY graph on n <= 3 nodes whose neighbour collections are lists of length <= 2 with repetition (duplicate edges), in every
       key order; for n = 4 lists of length <= 3 with repetition, sampled;
     * thorough: every loop-free graph on 5 nodes (2^20), a quarter of them also with a random non-empty set of self-loops."""
+    # named shapes first (so that a defect they expose is reported on them): the DIAMOND top -> {left, right} -> bottom, the
+    # triangle, the fan and the chain, in every key order and every neighbour order
+    shapes = {"diamond": {"top": ["left", "right"], "left": ["bottom"], "right": ["bottom"], "bottom": []},
+              "triangle": {"top": ["mid", "leaf"], "mid": ["leaf"], "leaf": []},
+              "fan": {"top": ["a", "b", "c"], "a": [], "b": [], "c": []},
+              "chain": {"a": ["b"], "b": ["c"], "c": ["d"], "d": []}}
+    for sname, g in shapes.items():
+        for keys in itertools.permutations(list(g)):
+            for nbo in itertools.product(*[list(itertools.permutations(g[k])) for k in g]):
+                yield f"graph-shape:{sname}", list(keys), {k: list(v) for k, v in zip(g, nbo)}
     for n in range(0, 5):
         names = [f"n{i}" for i in range(n)]
         pairs = [(u, v) for u in names for v in names]
@@ -237,7 +248,12 @@ def _exhaustive_graphs(ctx: Ctx, rng: Rng):
                     nb[u].append(v)
             if n >= 3:
                 nb = {u: rng.shuffle(vs) for u, vs in nb.items()}
-            yield f"graph-exh{n}", (rng.shuffle(names) if n >= 2 else names), nb
+            if n >= 2 and not rig.has_cycle_ref(nb):
+                # acyclic: the answer IS an order, and it depends on the key (= declaration) order: every key order
+                for keys in itertools.permutations(names):
+                    yield f"graph-exh{n}-dag-allorders", list(keys), nb
+            else:
+                yield f"graph-exh{n}", (rng.shuffle(names) if n >= 2 else names), nb
     # duplicate edges: all neighbour LISTS of length <= 2 (with repetition)
     for n in (1, 2, 3):
         names = [f"n{i}" for i in range(n)]
@@ -345,6 +361,16 @@ def _run_graph_bulk(ctx: Ctx, gen) -> None:
                f"{total - agree} of {total} graphs disagree")
 
 
+def _reconvergent(g: Dict[int, List[int]]) -> bool:
+    """Some node is reached from some node along two different paths (acyclic graph): number of paths u ~> v >= 2."""
+    import functools
+
+    @functools.lru_cache(maxsize=None)
+    def paths(u: int, v: int) -> int:
+        return 1 if u == v else sum(paths(w, v) for w in g[u])
+    return any(paths(u, v) >= 2 for u in g for v in g if u != v)
+
+
 def _cycle_config_case(rng: Rng) -> dict:
     """A configuration whose sharing graph has a cycle of a chosen length (1 = an agent sharing its own reward, 2 = mutual
     sharing, ... up to all agents), hidden among acyclic arcs, the cycle's arcs anywhere among the agents' components."""
@@ -411,8 +437,23 @@ def _families(ctx: Ctx) -> List[Tuple[str, dict]]:
     # every sharing graph on 4 agents without self-loops: quick = one random declaration order each, thorough = all 24
     perms4 = list(itertools.permutations(range(4)))
     for arcs in rig.all_arc_sets(4, self_loops=False):
-        for p in (perms4 if ctx.thorough else [rng.choice(perms4)]):
-            cases.append(("exh4", rig.gen_game_case(rng, 4, arcs, list(p), n_steps=1)))
+        g4 = {u: [v for (x, v) in arcs if x == u] for u in range(4)}
+        acyclic = not rig.has_cycle_ref(g4)
+        # an accepted (acyclic) graph is evaluated in an order that depends on the declaration order. Graphs in which some agent is
+        # reached along two different paths (diamond, triangle: where a pre-order / reversed-discovery order goes wrong) are loaded
+        # in ALL 24 declaration orders; the other acyclic ones in four (each agent declared first once); a cyclic one is rejected
+        # whatever the order: one random order in quick. thorough: all 24 for every graph.
+        stepped = rng.choice(perms4)  # quick: one declaration order per graph is also stepped (stale values); the others are loaded
+        if ctx.thorough:
+            ps, fam = perms4, ("exh4-dag-allorders" if acyclic else "exh4")
+        elif acyclic and _reconvergent(g4):
+            ps, fam = perms4, "exh4-reconvergent-allorders"
+        elif acyclic:
+            ps, fam = [stepped] + [rng.choice([p for p in perms4 if p[0] == f]) for f in range(4)], "exh4-dag-each-first"
+        else:
+            ps, fam = [stepped], "exh4"
+        for p in ps:
+            cases.append((fam, rig.gen_game_case(rng, 4, arcs, list(p), n_steps=1 if (ctx.thorough or p == stepped) else 0)))
     # cycles of every length through from_config: self-sharing, mutual sharing, long cycles (must raise at load)
     for k in range(ctx.scale(400, 6000)):
         cases.append(("cyclecfg", _cycle_config_case(rng)))
